@@ -131,7 +131,9 @@ def run(ctx: Ctx):
         ctx.evaluations += 1
         ctx.count("verdict_only_programs")
         ctx.nontrivial(("verdict", src))
-        if len({(a, b) for a, b, _, _ in lst}) > 1:
+        if len({a for a, b, _, _ in lst}) == 1 and len({b for a, b, _, _ in lst}) > 1:
+            ctx.count("same_verdict_other_diagnostic")      # two reasons to reject, reported in set order: the verdict is the same
+        if len({a for a, b, _, _ in lst}) > 1:
             ctx.violation("c20:verdict-differs:clause-set", "same source and options, different verdicts across processes: %s" % lst,
                           {"nmfu_source": src, "nmfu_args": jobs[-1]["args"], "verdicts": lst})
     ctx.count("worker_processes", len(vplans))
@@ -143,7 +145,11 @@ def run(ctx: Ctx):
         ctx.evaluations += 1
         ctx.count("rejected_program_recompilations")
         got = out[0]
-        if got["status"] != "rejected" or got["exc_type"] != exc:
+        if got["status"] == "rejected" and got["exc_type"] != exc:
+            ctx.count("same_verdict_other_diagnostic")
+            if len(ctx.extra.setdefault("other_diagnostic_examples", [])) < 3:
+                ctx.extra["other_diagnostic_examples"].append({"first": exc, "now": got["exc_type"], "hashseed": hs, "nmfu_source": jobs[-1]["src"][:600]})
+        if got["status"] != "rejected":
             ctx.violation("c20:verdict-differs:rejected-program", "a program rejected with %s is now %s/%s (hashseed %d, after %d other compilations)" %
                           (exc, got["status"], got["exc_type"], hs, len(jobs) - 1), {"nmfu_source": jobs[-1]["src"], "nmfu_args": jobs[-1]["args"], "hashseed": hs, "history_len": len(jobs) - 1})
     by_case = {}
